@@ -54,6 +54,13 @@ class HBO:
         return o
 
 
+class BaseOf:
+    """ndarray.base of a (possibly derived) array: numpy collapses base chains, so whether it is a particular array is unknown"""
+
+    def __init__(self, ref):
+        self.ref = ref
+
+
 class OrderV:
     """value of dtype.byteorder: a one-character string known only through its code"""
 
@@ -108,6 +115,8 @@ class BOMixin:
             return BODType(ref, h.names, h.order)
         if attr in ("copy", "byteswap", "view"):
             return Bound(ref, Prim("ndarray." + attr))
+        if attr == "base":
+            return BaseOf(ref)
         if attr == "size":
             n = z3.Int("bo!size!%d" % (h.buf if h.buf is not None else ref.id))
             if not any(f.eq(n >= 0) for f in st.pc):
